@@ -306,6 +306,18 @@ class Tr:
                 if s in ('K', 'int', 'nat'):
                     return f'({a} * {a})', s
             raise self.err(node, 'power other than **2')
+        if op in (ast.BitOr, ast.BitAnd):
+            # `|` / `&` of Boolean masks (elementwise) or of two bools
+            a, sa = self._E(node.left, env)
+            b, sb = self._E(node.right, env)
+            sym = '||' if op is ast.BitOr else '&&'
+            if sa == 'bool' and sb == 'bool':
+                return f'({a} {sym} {b})', 'bool'
+            if {sa, sb} <= {'bool', 'bfld'}:
+                pa = f'({a} p)' if sa == 'bfld' else a
+                pb = f'({b} p)' if sb == 'bfld' else b
+                return f'(fun p => {pa} {sym} {pb})', 'bfld'
+            raise self.err(node, f'| or & on sorts {sa},{sb} (only Boolean masks)')
         if op in (ast.FloorDiv, ast.Mod):
             a, sa = self._E(node.left, env)
             b, sb = self._E(node.right, env)
